@@ -141,7 +141,14 @@ def run(ctx):
                 r.ok("%s -> %s(%s)" % ("/".join(sorted(toks)), setter, arg))
             else:
                 r.fail(create_io, c, norm(c), "%s(%s) is driven by %s, expected %s(%s) under %s" % (setter, a, sorted(lits), setter, arg, sorted(toks)))
-    # formatter choice
+    # formatter choice (in create_io or in a private helper it calls)
+    fmt_fn = create_io
+    for cs in cg.sites_in(create_io):
+        for t in cs.targets:
+            if t.cls is not None and dac in t.cls.mro and t.name.startswith("_") and "--no-ansi" in [x.value for x in q.literal_strings(t.node)]:
+                fmt_fn = t
+    cfg_io = cfg
+    cfg = ctx.cfg(fmt_fn)
     for tok, cls_name, forced in (("--no-ansi", "PlainFormatter", None), ("--ansi", "AnsiFormatter", True)):
         ok_assign = False
         for n in cfg.nodes:
@@ -156,16 +163,17 @@ def run(ctx):
                     if f_ok:
                         ok_assign = True
                     else:
-                        r.fail(create_io, n.ast, norm(n.ast), "under %s both outputs must get %s%s" % (tok, cls_name, " (forced)" if forced else ""))
+                        r.fail(fmt_fn, n.ast, norm(n.ast), "under %s both outputs must get %s%s" % (tok, cls_name, " (forced)" if forced else ""))
         if ok_assign:
             r.ok("%s -> %s for both outputs%s" % (tok, cls_name, " (forced)" if forced else ""))
         elif not any(f.key.endswith(tok) for f in r.findings):
-            r.fail(create_io, create_io.node, "no formatter arm for " + tok, "the switch %s does not select the %s for both outputs" % (tok, cls_name))
+            r.fail(fmt_fn, fmt_fn.node, "no formatter arm for " + tok, "the switch %s does not select the %s for both outputs" % (tok, cls_name))
     # --no-ansi has priority and is tested before --ansi
     no_t = [e for e in cfg.nodes if e.kind == "F" and "--no-ansi" in _lits_in_cond(e.ast, "has_option_token")]
     ansi_c = [e for e in cfg.nodes if e.kind == "cond" and "--ansi" in _lits_in_cond(e.ast, "has_option_token")]
     if no_t and ansi_c and all(any(cfg.dominates(f.id, c.id) for f in no_t) for c in ansi_c):
         r.ok("--no-ansi decided before --ansi")
+    cfg = cfg_io
 
     # ---------------------------------------------------------------- R4
     r = ctx.rule("C09-R4", "GUARD", "the help switch is handled before resolution: the pre-resolve listener sets the "
@@ -229,7 +237,14 @@ def run(ctx):
         r.fail(ver, ver.node, "render", "name and version are not rendered (only) when the version switch is given")
     phe = ctx.cls("clikit.api.event.pre_handle_event.PreHandleEvent")
     init = phe.methods.get("__init__")
-    st = [n for n in walk_no_nested(init.node) if isinstance(n, ast.Assign) and any(is_self_attr(t, "_status_code") for t in n.targets)]
+    # the field behind the status_code getter
+    sc = phe.methods.get("status_code")
+    sfield = None
+    if sc is not None:
+        for ret in q.returns(sc):
+            if ret.value is not None and is_self_attr(ret.value):
+                sfield = ret.value.attr
+    st = [n for n in walk_no_nested(init.node) if isinstance(n, ast.Assign) and sfield and any(is_self_attr(t, sfield) for t in n.targets)]
     if st and isinstance(st[0].value, ast.Constant) and st[0].value.value == 0:
         r.ok("PreHandleEvent default status 0")
     else:
